@@ -1080,3 +1080,13 @@ def d11(cx: Cx, ob: Ob) -> None:
                 detail="bind-override",
             )
     ob.site(f"src/curies/mapping_service/api.py MappingServiceGraph", f"{n} methods scanned for namespace bindings")
+
+
+@obligation("C18-X30", "'exactly the syntactically valid members of expand_all(compress(u))' - the reference set is computed by cutting the CURIE that compress printed: _split cuts the UNMODIFIED string at the first separator, parse_curie splits with self.delimiter and hands prefix and identifier on untouched, expand_all is expand_pair_all of that pair (shared with C02-D1/D2/D5/D6) - so that it is the set the service computes from parse_uri(u) directly", floor=4)
+def x30(cx: Cx, ob: Ob) -> None:
+    from .c02 import check_expand_wrappers, check_parse_curie_delimiter, check_parse_curie_flow, check_split
+
+    check_split(cx, ob)
+    check_parse_curie_delimiter(cx, ob)
+    check_parse_curie_flow(cx, ob)
+    check_expand_wrappers(cx, ob)
